@@ -423,9 +423,16 @@ def records_case(ctx, case):
             ctx.fail('records', 'R-eq', case, eq, want)
         if (a != b) is not (not eq):
             ctx.fail('records', 'R-ne', case)
-        if eq and hash(a) != hash(b):
-            ctx.fail('records', 'R-hash', case)
-        if make_record(ca, va) != a or hash(make_record(ca, va)) != hash(a):
+        def h(r):
+            # a record holding an unhashable value (list, dict) may refuse
+            # to be hashed; if it does hash, equal records hash equally
+            try:
+                return hash(r)
+            except TypeError:
+                return 'unhashable'
+        if eq and h(a) != h(b):
+            ctx.fail('records', 'R-hash', case, (h(a), h(b)))
+        if make_record(ca, va) != a or h(make_record(ca, va)) != h(a):
             ctx.fail('records', 'R-copy-equal', case)
         if list(a) != va:
             ctx.fail('records', 'R-iter', case, list(a), va)
@@ -438,7 +445,7 @@ def records_case(ctx, case):
         part = make_record(ca, [v if i % 2 else _UNSET
                                 for i, v in enumerate(va)])
         rp = repr(part)
-        hash(part)
+        h(part)
         want_p = '%s(%s)' % (ca.__name__, ', '.join(
             '%s=%r' % (n, v) for i, (n, v) in enumerate(zip(sa, va))
             if i % 2))
@@ -816,15 +823,43 @@ def t_hist(ctx, which, n, maxlen):
                             'combinations')
 
 
+def _same_but_prints_differently(v):
+    # a value that compares equal to v but has another repr
+    if isinstance(v, bool):
+        return int(v)
+    if isinstance(v, int):
+        return float(v) if v not in (0, 1) else bool(v)
+    if isinstance(v, float) and v == int(v):
+        return int(v)
+    if isinstance(v, list):
+        return [_same_but_prints_differently(x) for x in v]
+    if isinstance(v, tuple):
+        return tuple(_same_but_prints_differently(x) for x in v)
+    if isinstance(v, dict):
+        return dict(reversed(list(v.items())))
+    return v
+
+
 def t_laws(ctx, n):
+    num = st.one_of(st.integers(-2, 2), st.booleans(),
+                    st.sampled_from([0.0, 1.0, -1.0, 0.5]))
     val = st.one_of(st.integers(-5, 5), st.sampled_from(['a', '', (1, 2)]),
-                    st.none(), st.booleans(), st.floats(-2, 2))
+                    st.none(), st.booleans(), st.floats(-2, 2),
+                    # unhashable field values (the library's own records
+                    # hold lists: properties, icons)
+                    st.lists(num, max_size=2),
+                    st.dictionaries(st.sampled_from(['k', 'j']), num,
+                                    max_size=2))
     rec = st.fixed_dictionaries({
         'cls_a': st.integers(0, 60),
         'cls_b': st.one_of(st.none(), st.integers(0, 60)),
         'a': st.lists(val, min_size=8, max_size=8),
-        'b': st.lists(val, min_size=8, max_size=8)}).map(
-            lambda c: dict(c, b=c['a']) if c['a'][0] in (1, 'a') else c)
+        'b': st.lists(val, min_size=8, max_size=8),
+        'twin': st.sampled_from([0, 0, 1, 2])}).map(
+            lambda c: dict(c, b=c['a']) if c['twin'] == 1 or
+            c['a'][0] in (1, 'a') else
+            dict(c, b=[_same_but_prints_differently(x) for x in c['a']],
+                 cls_b=None) if c['twin'] == 2 else c)
     hyp(ctx, 'records', rec, lambda c, case: records_case(c, case), n)
     frec = st.fixed_dictionaries({
         'fresh': st.just(True),
